@@ -877,6 +877,19 @@ async def c02_template(w):
             "expected": "same statements in the same order, same result / exception type as CPython"}
 
 
+async def c11_classdef_scope(w):
+    """An exception in a class body: afterwards the caller must still see its own local variables."""
+    await boot_full()
+    src = ("def g():\n    mine = 41\n    try:\n        class K:\n            boom = 1 / 0\n"
+           "    except ZeroDivisionError:\n        pass\n    return mine + 1\nresult = None\nerr = None\n"
+           "try:\n    result = g()\nexcept Exception as e:\n    err = type(e).__name__\n")
+    gctx, actx, exc = await run_source("file.c11", src)
+    res, err = gctx.global_sym_table.get("result"), gctx.global_sym_table.get("err")
+    await shutdown()
+    return {"reproduced": res != 42, "observed": {"result": res, "error": err, "load_exception": repr(exc)},
+            "expected": "g() returns 42: its local variable is still visible after the failed class definition"}
+
+
 SCENARIOS = {k: v for k, v in list(globals().items()) if asyncio.iscoroutinefunction(v) and k[0] == "c"}
 
 if __name__ == "__main__":
